@@ -287,6 +287,9 @@ fn handle(
                     rep.map("delay_profile", sc.delay.name());
                     if res.ret.is_err() {
                         rep.count("real_runs_returning_error");
+                        if sc.io_fault.is_some() {
+                            rep.count("real_runs_with_a_source_fault_returning_error");
+                        }
                     }
                     let idv: Vec<usize> = res.seen.recs.iter().filter_map(|r| r.0).collect();
                     rep.add("out_of_order_arrivals", idv.windows(2).filter(|w| w[1] < w[0]).count() as u64);
@@ -513,12 +516,14 @@ fn main() {
                 match prop.as_str() {
                     "C07" => {
                         sc.init_fail = RealInitFail::None;
+                        sc.io_fault = None;
                         if sc.has_error {
                             // error-free inputs only: regenerate without the invalid record
                             let mut r2 = Rng::derive(&[seed, shard, idx, 71]);
                             loop {
                                 sc = gen_real(&mut r2, ctx.miri, shard, false);
                                 sc.init_fail = RealInitFail::None;
+                                sc.io_fault = None;
                                 if !sc.has_error {
                                     break;
                                 }
@@ -528,7 +533,10 @@ fn main() {
                             sc.stop_after = None;
                         }
                     }
-                    "C16" => sc.init_fail = RealInitFail::None,
+                    "C16" => {
+                        sc.init_fail = RealInitFail::None;
+                        sc.io_fault = None;
+                    }
                     _ => {}
                 }
                 let class = format!(
@@ -619,6 +627,7 @@ fn memory_mode(ctx: &Ctx, rep: &mut Report) {
         let job = if real {
             let mut r2 = Rng::derive(&[ctx.seed, ctx.shard, 1, 72]);
             let mut sc = gen_real(&mut r2, false, ctx.shard, false);
+            sc.io_fault = None;
             // n * 10 records of similar size; FASTA with 1-6 sequence lines per record
             let fasta = ctx.shard % 4 == 3;
             let mut input = vec![];
